@@ -36,8 +36,8 @@ class Cell:
 def resolve(t):
     while isinstance(t, Cell) and t.ref is not None:
         t = t.ref
-    if isinstance(t, tuple) and t[0] == "List":
-        return ("List", resolve(t[1]))
+    if isinstance(t, tuple) and t[0] in ("List", "Dict"):
+        return (t[0], resolve(t[1]))
     return t
 
 
@@ -51,8 +51,8 @@ def unify(a, b):
     if isinstance(b, Cell):
         b.ref = a
         return a
-    if isinstance(a, tuple) and isinstance(b, tuple) and a[0] == b[0] == "List":
-        return ("List", unify(a[1], b[1]))
+    if isinstance(a, tuple) and isinstance(b, tuple) and a[0] == b[0] and a[0] in ("List", "Dict"):
+        return (a[0], unify(a[1], b[1]))
     raise Unsupported(f"type mismatch {show_ty(a)} vs {show_ty(b)}")
 
 
@@ -73,6 +73,12 @@ def show_ty(t):
     if isinstance(t, tuple) and t[0] == "List":
         inner = show_ty(t[1])
         return f"List {inner}" if " " not in inner else f"List ({inner})"
+    if isinstance(t, tuple) and t[0] == "StrPair":
+        inner = show_ty(t[1])
+        return f"String × {inner}" if " " not in inner else f"String × ({inner})"
+    if isinstance(t, tuple) and t[0] == "Dict":
+        inner = show_ty(t[1])
+        return f"List (String × {inner})" if " " not in inner else f"List (String × ({inner}))"
     if isinstance(t, tuple) and t[0] == "Pair":
         inner = show_ty(t[1])
         return f"Int × {inner}" if " " not in inner else f"Int × ({inner})"
@@ -86,7 +92,7 @@ def ann_type(a):
     table = {"int": "Int", "bool": "Bool", "str": "Str",
              "Sequence[int]": ("List", "Int"), "list[int]": ("List", "Int"), "Any": ("List", "Int"),
              "Sequence[Any]": ("List", "Int"), "list[list[int]]": ("List", ("List", "Int")),
-             "list[Any]": ("List", "Int")}
+             "list[Any]": ("List", "Int"), "Dict[str, list[int]]": ("Dict", ("List", "Int"))}
     if s not in table:
         raise Unsupported(f"annotation {s}")
     return table[s]
@@ -191,6 +197,10 @@ class FnTranslator:
                 raise Unsupported("slice")
             b1, c1, t1 = self._expr(n.value, env)
             b2, c2, t2 = self._expr(n.slice, env)
+            if isinstance(resolve(t1), tuple) and resolve(t1)[0] == "Dict":
+                unify(t2, "Str")
+                v = self.fresh()
+                return b1 + b2 + [f"let {v} ← pyDictGet {c1} {c2}"], v, resolve(t1)[1]
             unify(t2, "Int")
             et = Cell()
             unify(t1, ("List", et))
@@ -222,6 +232,14 @@ class FnTranslator:
             return binds, "(" + " ++ ".join(parts) + ")", "Str"
         if isinstance(n, ast.Call):
             return self.call(n, env)
+        if isinstance(n, ast.Dict) and not n.keys:
+            return [], "[]", ("Dict", Cell())
+        if isinstance(n, ast.IfExp):
+            _, cc, ct = self.expr(n.test, env, pure_only=True)
+            unify(ct, "Bool")
+            _, c1, t1 = self.expr(n.body, env, pure_only=True)
+            _, c2, t2 = self.expr(n.orelse, env, pure_only=True)
+            return [], f"(if {cc} then {c1} else {c2})", unify(t1, t2)
         raise Unsupported(f"expression {type(n).__name__}")
 
     def binop(self, n, env):
@@ -271,6 +289,11 @@ class FnTranslator:
         parts = []
         for i, op in enumerate(n.ops):
             (c1, t1, _), (c2, t2, e2) = operands[i], operands[i + 1]
+            if isinstance(op, (ast.In, ast.NotIn)) and resolve(t2) == "Str":
+                unify(t1, "Str")
+                sc = f"(pyStrContains {c2} {c1})"
+                parts.append(sc if isinstance(op, ast.In) else f"(!{sc})")
+                continue
             if isinstance(op, (ast.In, ast.NotIn)):
                 unify(t2, ("List", t1))
                 s = f"(List.contains {c2} {c1})"
@@ -437,14 +460,16 @@ class FnTranslator:
         return binds + [f"let {v} ← {sig.lean_name} " + " ".join(cs)], v, sig.ret
 
     def create_call(self, n, env):
-        if len(n.args) != 1:
+        if not 1 <= len(n.args) <= 4:
             raise Unsupported("CayleyGraphDef.create positional arguments")
         binds, cg, tg = self._expr(n.args[0], env)
         unify(tg, ("List", ("List", "Int")))
         kws = {"central_state": ("none", ("List", "Int")), "generator_names": ("none", ("List", "Str")),
                "name": ("none", "Str")}
         vals = {}
-        for kw in n.keywords:
+        pos_names = ["generator_names", "central_state", "name"]   # signature order of `create` after `generators`
+        extra = [ast.keyword(arg=pos_names[k], value=a) for k, a in enumerate(n.args[1:])]
+        for kw in extra + list(n.keywords):
             if kw.arg not in kws or kw.arg in vals:
                 raise Unsupported(f"CayleyGraphDef.create keyword {kw.arg}")
             b, c, t = self._expr(kw.value, env)
@@ -609,6 +634,10 @@ class FnTranslator:
             if x not in env:
                 raise Unsupported(f"{x}[…] = … on an unknown variable")
             b, c, ti = self._expr(t.slice, env)
+            if isinstance(resolve(env[x]), tuple) and resolve(env[x])[0] == "Dict":
+                unify(ti, "Str")
+                unify(env[x], ("Dict", ty))
+                return [ind + y for y in b] + [f"{ind}let {self.nm(x)} := pyDictSet {self.nm(x)} {c} {code}"]
             unify(ti, "Int")
             unify(env[x], ("List", ty))
             return [ind + y for y in b] + [f"{ind}let {self.nm(x)} ← pySet {self.nm(x)} {c} {code}"]
@@ -622,11 +651,27 @@ class FnTranslator:
                 and not it.keywords and isinstance(target, ast.Tuple) and len(target.elts) == 2 \
                 and isinstance(target.elts[0], ast.Name):
             enum_var, target, it = target.elts[0].id, target.elts[1], it.args[0]
-        b_it, c_it, t_it = self.iter_expr(it, env)
+        items_loop = (isinstance(it, ast.Call) and isinstance(it.func, ast.Attribute) and it.func.attr == "items"
+                      and not it.args and not it.keywords and isinstance(target, ast.Tuple) and len(target.elts) == 2
+                      and all(isinstance(e, ast.Name) for e in target.elts))
+        if items_loop:
+            b_it, c_it, t_d = self._expr(it.func.value, env)
+            vt = Cell()
+            unify(t_d, ("Dict", vt))
+            t_it = ("List", ("StrPair", vt))
+        else:
+            b_it, c_it, t_it = self.iter_expr(it, env)
         ind2 = ind + "    "
         pre = []
         env_body = dict(env)
-        if isinstance(target, ast.Name):
+        if items_loop:
+            var = self.fresh()
+            kname, vname = target.elts[0].id, target.elts[1].id
+            pre += [f"{ind2}let {self.nm(kname)} : String := {var}.1", f"{ind2}let {self.nm(vname)} := {var}.2"]
+            env_body[kname] = "Str"
+            env_body[vname] = vt
+            loop_vars = [kname, vname]
+        elif isinstance(target, ast.Name):
             var = target.id
             env_body[var] = resolve(t_it)[1]
             loop_vars = [var]
@@ -652,7 +697,7 @@ class FnTranslator:
             loop_vars.append(enum_var)
             var_decl = (pair, ("Pair", inner_ty))
         else:
-            var_decl = (var, resolve(t_it)[1])
+            var_decl = (var, t_it[1] if items_loop else resolve(t_it)[1])
         state = [x for x in self.assigned(s.body) if x in env and x not in loop_vars]
         body_lines = self.unpack(state, "st", ind2) + pre
         inner, _ = self.block(s.body, env_body, ind2, tail=lambda e: self.tuple_code(state))
@@ -834,12 +879,13 @@ def dispatcher(*sig_maps):
             pat = " :: ".join(pats + (["rest"] if has_rest else ["[]"])) if pats else ("rest" if has_rest else "[]")
             short = sig.lean_name[len("Cv.PyGen."):]
             cases.append(f'  | "{short}", {pat} => showRes ({sig.lean_name} ' + " ".join(args) + ")")
-    return (HEADER + "import CvGen.PyPerm\nimport CvGen.PyFamilies\n\nnamespace Cv.PyGen\nopen Cv.Py\n\n"
+    return (HEADER + "import CvGen.PyPerm\nimport CvGen.PyFamilies\nimport CvGen.PyGlobe\n\nnamespace Cv.PyGen\nopen Cv.Py\n\n"
             "def showInts (l : List Int) : String := \" \".intercalate (l.map toString)\n"
             "class ShowRes (α : Type) where\n  render : α → String\n"
             "instance : ShowRes (List Int) := ⟨showInts⟩\n"
             "instance : ShowRes Bool := ⟨fun b => if b then \"true\" else \"false\"⟩\n"
             "instance : ShowRes (List (List Int)) := ⟨fun l => \" | \".intercalate (l.map showInts)⟩\n"
+            "instance : ShowRes (List (String × List Int)) := ⟨fun l => \" | \".intercalate (l.map fun p => p.1 ++ \": \" ++ showInts p.2)⟩\n"
             "instance : ShowRes RawDef := ⟨fun d =>\n"
             "  \"gens: \" ++ \" | \".intercalate (d.gens.map showInts) ++\n"
             "  \" ; central: \" ++ (match d.central with | some c => showInts c | none => \"none\") ++\n"
@@ -863,9 +909,12 @@ def generate(repo, outdir):
     fam_src = f"{repo}/cayleypy/graphs_lib.py"
     header2 = HEADER + "import CvGen.PyPerm\n"
     text2, sigs2, rep2 = translate_module(fam_src, None, sigs, "Cv.PyGen.Fam", header2, class_name="PermutationGroups")
-    text3 = dispatcher(sigs, sigs2)
+    globe_src = f"{repo}/cayleypy/puzzles/globe.py"
+    text4, sigs4, rep4 = translate_module(globe_src, ["help_cyclic", "globe_gens", "globe_puzzle"], sigs, "Cv.PyGen.Globe",
+                                          HEADER + "import CvGen.PyPerm\n")
+    text3 = dispatcher(sigs, sigs2, sigs4)
     changed = False
-    for name, text in (("PyPerm.lean", text1), ("PyFamilies.lean", text2), ("PyDispatch.lean", text3)):
+    for name, text in (("PyPerm.lean", text1), ("PyFamilies.lean", text2), ("PyGlobe.lean", text4), ("PyDispatch.lean", text3)):
         p = f"{outdir}/{name}"
         try:
             old = open(p).read()
@@ -874,7 +923,7 @@ def generate(repo, outdir):
         if old != text:
             open(p, "w").write(text)
             changed = True
-    return {"permutation_utils": rep1, "graphs_lib": rep2, "changed": changed}
+    return {"permutation_utils": rep1, "graphs_lib": rep2, "globe": rep4, "changed": changed}
 
 
 if __name__ == "__main__":
